@@ -38,6 +38,12 @@ PROBLEMS = [
      'array', '[[1,1],[1,1]]', 2.0),
     ('mat1', 'MatrixGrader', 'x*[[1,2],[3,4]]+y*[[0,1],[1,0]]', ['x', 'y'],
      lambda x, y: ('arr', [x, 2 * x + y, 3 * x + y, 4 * x]), 'array', '[[1,0],[0,0]]', 1.0),
+    # complex arrays; the deviation direction has entries of different phases (a norm that
+    # forgets to conjugate collapses it)
+    ('cmat', 'MatrixGrader', 'x*[[1,2],[3,4]]', ['x'], lambda x, y: ('arr', [x, 2 * x, 3 * x, 4 * x]),
+     'array', '[[1,i],[0,0]]', math.sqrt(2.0)),
+    ('cvec', 'MatrixGrader', 'x*[1+i, 2, i]', ['x'], lambda x, y: ('arr', [x * (1 + 1j), 2 * x, x * 1j]),
+     'array', '[1,i,1+i]', 2.0),
     ('vec', 'MatrixGrader', '[x, y, x*y]', ['x', 'y'], lambda x, y: ('arr', [x, y, x * y]), 'array',
      '[0,3,4]', 5.0),
     # answers that are exactly zero at the first sample: a percentage of zero is zero
@@ -50,7 +56,7 @@ PROBLEMS = [
     ('numc', 'NumericalGrader', '2+3*i', [], lambda x, y: 2 + 3j, 'complex', None, 1.0),
 ]
 
-TOLS = [0, 0.001, 0.01, 0.5, '0%', '0.01%', '1%', '5%', '10%', '0.5%']
+TOLS = [0, 0.001, 0.01, 0.5, '0%', '0.01%', '1%', '5%', '10%', '0.5%', '0.00002%', '0.000005%', 1e-7, '2e-3%']
 
 
 def norm_of(val):
